@@ -71,6 +71,14 @@ def make(c):
     pne = (['0,0', '4,1', '3.5,0'] + ['4.0,0.0', '2,0.00', '0.0,0.0', '3,1.0', '4,0'] * 5)[:NCH]
     ranges = ([1024, 256, 1000] + [1024, 4096, 512] * 8)[:NCH]
     events = [([5, 1, 10] + [3] * 30)[:NCH], ([900, 200, 20] + [4] * 30)[:NCH], ([17, 255, 70] + [5] * 30)[:NCH]]
+    tv = c.get('timevals')
+    if tv == 'same-tick':            # all events within one time tick: elapsed time 0
+        for e in events:
+            e[2] = 33
+    elif tv == 'single-event':
+        events = events[:1]
+    elif tv == 'first-equals-last':
+        events[0][2], events[1][2], events[2][2] = 40, 90, 40
     lay = dict(version=c.get('version', 'FCS3.0'), datatype='I', byteord='4,3,2,1', bits=[16] * NCH, ranges=ranges,
                names=names, pne=pne, events=events, extra=extra)
     return lay, kw, names, pne, ranges, events
@@ -222,6 +230,11 @@ def cases(tier, seed):
             present = [k for k, b in zip(['PnV', 'PnG', 'PnS', 'BDWORD', 'CYTEK'], bits) if b]
             for cr in CREATORS:
                 yield dict(kind='manychannels', nch=nch, present=present, creator=cr, timech=None)
+    # (A3) time channels whose first and last event carry the same value (elapsed time zero), with start / end times present
+    for tv in ('same-tick', 'single-event', 'first-equals-last'):
+        for present in (['$TIMESTEP', '$BTIM', '$ETIM'], ['$TIMESTEP', '$BTIM', '$ETIM', '$DATE'], ['TIMETICKS', '$BTIM', '$ETIM'], ['$TIMESTEP'], ['$BTIM', '$ETIM']):
+            for tc in ('Time', 'TIME', None):
+                yield dict(kind='elapsed-zero', present=present, creator=None, timech=tc, timevals=tv)
     # (B) formats
     for bt in TIMEFMT:
         for et in TIMEFMT:
